@@ -146,6 +146,9 @@ class Verifier:
             else:
                 gv = self.make_value(I, gty, gname)
             I.ghost[gname] = gv
+        setup = c.ghost.get("setup")
+        if setup is not None:
+            setup(I, env)  # sidecar-built parts of the initial state that a type string cannot describe
         for gname, msg in self.drifted_ghost().items():
             I.ghost[gname] = DriftedGhost(msg)
         for gname in self.contract_globals(c.target):
@@ -586,6 +589,9 @@ class Verifier:
 
     def on_stmt(self, I, st, env):
         """Statement-pattern hooks (DESIGN 2.2 'recognised idioms'); returns True when the hook executed the statement."""
+        hook = self.c.ghost.get("stmt_hook")
+        if hook is not None and hook(I, st, env):
+            return True
         if isinstance(st, ast.While) and isinstance(st.test, ast.Constant) and st.test.value is True:
             return self._drain_idiom(I, st, env)
         return False
